@@ -127,6 +127,7 @@ TEnd ==
         /\ opened = {}                            \* everything the request started is done
      \/ /\ ~Ev.ok /\ mode \in {"run", "failing"}
         /\ cause \notin {"overflow-pending", "infrec-pending"}
+        /\ opened = {}                            \* Machine!Fail with RestoreOnFail: nothing stays in progress
   /\ mode' = "idle" /\ frames' = 0 /\ cause' = "" /\ opened' = {}
   /\ UNCHANGED <<st, limit>>
 
